@@ -246,6 +246,9 @@ func (cfg *Config) SetCredentialsStore(credsStore string) error {
 // IsAuthConfigured returns whether there is authentication configured in this
 // config file or not.
 func (cfg *Config) IsAuthConfigured() bool {
+	cfg.rwLock.RLock()
+	defer cfg.rwLock.RUnlock()
+
 	return cfg.credentialsStore != "" ||
 		len(cfg.credentialHelpers) > 0 ||
 		len(cfg.authsCache) > 0
